@@ -70,7 +70,7 @@ def exampleAccept : Accept :=
     alwaysOn := some 1, mappedEps := some [0], eap := some [1, 2], qosFlowDescr := some [1, 2, 3],
     epco := some [0x80], dnn := some [8, 105, 110, 116, 101, 114, 110, 101, 116] }
 
-example : exampleAccept.WellFormed ∧ exampleAccept.qosRules.length = 4000 ∧
+theorem exampleAccept_ok : exampleAccept.WellFormed ∧ exampleAccept.qosRules.length = 4000 ∧
     exampleAccept.pduAddress = some (pduAddressV4 [10, 45, 0, 2]) ∧ exampleAccept.encode.length < 65530 ∧
     exampleAccept.cause.isSome ∧ exampleAccept.rqTimer.isSome ∧ exampleAccept.snssai.isSome ∧
     exampleAccept.alwaysOn.isSome ∧ exampleAccept.mappedEps.isSome ∧ exampleAccept.eap.isSome ∧
@@ -80,6 +80,11 @@ example : exampleAccept.WellFormed ∧ exampleAccept.qosRules.length = 4000 ∧
   refine ⟨⟨by rw [hq]; omega, rfl⟩, hq, rfl, ?_, rfl, rfl, rfl, rfl, rfl, rfl, rfl, rfl, rfl⟩
   rw [Proofs.Extract.accept_encode_length _ rfl, hq, ho]
   omega
+
+/-- `C12_ip_pdu` applied to it: the 4 000-octet accept behind a header, with two hidden octets of capacity -/
+example : decodeNasPdu (Sl.ofBytes (nasPdu ⟨2, [0xaa, 0xbb, 0xcc, 0xdd], 7⟩ 1 exampleAccept (some 5)) [9, 9])
+    = .ok [10, 45, 0, 2] :=
+  C12_ip_pdu _ _ _ _ _ _ _ _ _ rfl exampleAccept_ok.1 exampleAccept_ok.2.2.1 rfl exampleAccept_ok.2.2.2.1
 
 /-- **TEID and UPF address.** For every ProtocolIE-Container in X.691 ALIGNED PER whose tunnel IE (id 139, GTP tunnel with a
     32-bit transport layer address `tla` and TEID `teid`) is the first IE or the second one after the PDU session AMBR
@@ -105,12 +110,17 @@ theorem C12_teid_upf (t : Transfer) (slack : Bytes) (hwf : t.WellFormed) (h4 : t
   exact C12_teid_upf_container t.ambr t.tla t.teid slack t.tailIes _ hwf.1 hwf.2.1 h4 (by simp only [fuelFor]; omega)
 
 /-- the hypotheses are satisfiable: both bit rates at the top of the range, all four IEs -/
-example : ∃ t : Transfer, t.WellFormed ∧ t.tla.length = 4 ∧ t.ambr = some (4000000000000, 4000000000000) ∧
-    t.pduType.isSome ∧ t.qos.isSome :=
-  ⟨{ ambr := some (4000000000000, 4000000000000), tla := [10, 0, 0, 1], teid := [0, 0, 0, 5], pduType := some 0,
-     qos := some [{ qfi := 9, fiveQI := 9, arp := 1, cap := 0, vul := 0 }] },
-   ⟨by intro dl ul h; cases h; exact ⟨Nat.le_refl _, Nat.le_refl _⟩, rfl, by decide, by decide,
-    by intro p h; cases h; decide, by intro l h; cases h; simp⟩, rfl, rfl, rfl, rfl⟩
+def exampleTransfer : Transfer :=
+  { ambr := some (4000000000000, 4000000000000), tla := [10, 0, 0, 1], teid := [0, 0, 0, 5], pduType := some 0,
+    qos := some [{ qfi := 9, fiveQI := 9, arp := 1, cap := 0, vul := 0 }] }
+
+theorem exampleTransfer_ok : exampleTransfer.WellFormed ∧ exampleTransfer.tla.length = 4 :=
+  ⟨⟨by intro dl ul h; cases h; exact ⟨Nat.le_refl _, Nat.le_refl _⟩, rfl, by decide, by decide,
+    by intro p h; cases h; decide, by intro l h; cases h; simp⟩, rfl⟩
+
+/-- `C12_teid_upf` applied to it, with three hidden octets of capacity -/
+example : decodeTransferPdu (Sl.ofBytes exampleTransfer.encode [1, 2, 3]) = .ok (5, [10, 0, 0, 1]) :=
+  C12_teid_upf exampleTransfer [1, 2, 3] exampleTransfer_ok.1 exampleTransfer_ok.2
 
 /-- **Termination** (the code after the F9 repair): on any slice whatsoever — any contents, any length, any capacity —
     the NAS extraction does not use up fuel that exceeds the capacity, i.e. the Go loop returns. -/
